@@ -16,12 +16,14 @@ Link theorems only (no new model, no new specification).  They connect
 * `WF.idsNodup` — spot IDs pairwise distinct            ⇒ node ids unique;
 * `WF.edgesOk.ends` — every link joins declared spots   ⇒ every edge endpoint is a node id;
 * `WF.edgesOk.distinct` — no link (source, target) twice ⇒ no repeated edge (inside `C16_graph`);
-* **not a clause of `WF`**: *no link joins a spot to itself*.  `WF` (and its executable check `wfB`)
-  allows `SPOT_SOURCE_ID = SPOT_TARGET_ID`; the converter model then writes a self edge and graph
-  validation fails (`C16_counterexample_self_link`; the real converter does the same on the rendered XML:
-  nodes [1, 2], edges [[1, 2], [2, 2]], `ValueError: Self edges found in data: [2]`).  The link theorems therefore carry the extra
-  hypothesis `hns : ∀ x ∈ links d, x.1.s ≠ x.1.t`, and `C16_graph_validation_iff` shows it is exactly
-  what is needed: under `WF`, graph validation of the output passes iff no *kept* link is a self link.
+* `WF.noSelfLink` — *no link joins a spot to itself* (`SPOT_SOURCE_ID ≠ SPOT_TARGET_ID`; executable
+  check `noSelfLinkB`, part of `wfB`)                    ⇒ no self edge.  The clause is necessary: a
+  document that meets every other clause (`wfCoreB`) but has a link 2 → 2 converts, the converter model
+  writes a self edge and graph validation fails (`C16_counterexample_self_link`; the real converter does
+  the same on the rendered XML: nodes [1, 2], edges [[1, 2], [2, 2]], `ValueError: Self edges found in
+  data: [2]` — corpus case `harness/corpus/C16/10-self-link-malformed.json`).  `C16_graph_validation_iff`
+  shows it is exactly what is needed: under the other clauses, graph validation of the output passes iff
+  no *kept* link is a self link.
 
 The TrackMate converter writes `directed=True` (`_trackmate_xml.py`), so C12 is used with
 `directed = true`; `Int` arrays via the embedding `Geff.Link.intIds / intEdges`.
@@ -40,7 +42,7 @@ open Geff.TrackMate Geff.Graph Geff.Link GeffProps.C16
 /-- **graph validity from the individual clauses**: given what `C16_graph` states about the output
 (`hnodes`, `hnd`, `hedges`), graph validity (C12's `GraphValid`, directed) follows from exactly:
 distinct spot ids (`hids` = `WF.idsNodup`), links between declared spots (`hends` =
-`WF.edgesOk.ends`), and no kept self link (`hns`, not part of `WF`).  "No repeated link"
+`WF.edgesOk.ends`), and no kept self link (`hns`, from `WF.noSelfLink`).  "No repeated link"
 (`WF.edgesOk.distinct`) enters through `hnd`. -/
 theorem C16_graph_valid_of_clauses (d : Doc) (ds dt : Bool) (out : Out)
     (hnodes : out.nodes = (spotIds d).filter (keepSpot d ds dt))
@@ -83,11 +85,11 @@ theorem C16_graph_valid_iff (d : Doc) (h : WF d) (ds dt : Bool) (out : Out) (hc 
 
 /-- the output satisfies the right-hand side of `C12_graph_iff`: unique node ids, endpoints exist,
 no self edge, no repeated edge (on the `Nat` arrays of the converter model) -/
-theorem C16_graph_valid (d : Doc) (h : WF d) (hns : ∀ x ∈ links d, x.1.s ≠ x.1.t) (ds dt : Bool) (out : Out)
+theorem C16_graph_valid (d : Doc) (h : WF d) (ds dt : Bool) (out : Out)
     (hc : convert d ds dt = .ok out) :
     out.nodes.Nodup ∧ (∀ u v, (u, v) ∈ out.edges → u ∈ out.nodes ∧ v ∈ out.nodes) ∧
     (∀ u v, (u, v) ∈ out.edges → u ≠ v) ∧ out.edges.Nodup := by
-  have hv := (C16_graph_valid_iff d h ds dt out hc).2 (fun x hx _ => hns x hx)
+  have hv := (C16_graph_valid_iff d h ds dt out hc).2 (fun x hx _ => h.noSelfLink x hx)
   rw [graphValid_cast] at hv
   exact ⟨hv.1, fun u v he => hv.2.1 (u, v) he, fun u v he => hv.2.2.1 (u, v) he, (C16_graph d h ds dt out hc).2.1⟩
 
@@ -101,15 +103,15 @@ theorem C16_graph_validation_iff (d : Doc) (h : WF d) (ds dt : Bool) (out : Out)
       ∀ x ∈ links d, keepSpot d ds dt x.1.s = true → x.1.s ≠ x.1.t := by
   rw [GeffProps.C12.C12_graph_iff, C16_graph_valid_iff d h ds dt out hc]
 
-/-- **C16_output_passes_graph_validation**: for a well-formed TrackMate document without self links,
-C12's model of `validate_data(graph=True)` passes on the converter model's output, for all four
+/-- **C16_output_passes_graph_validation**: for a well-formed TrackMate document (`WF` includes "no
+self link"), C12's model of `validate_data(graph=True)` passes on the converter model's output, for all four
 discard-flag combinations. -/
-theorem C16_output_passes_graph_validation (d : Doc) (h : WF d) (hns : ∀ x ∈ links d, x.1.s ≠ x.1.t)
+theorem C16_output_passes_graph_validation (d : Doc) (h : WF d)
     (ds dt : Bool) (out : Out) (hc : convert d ds dt = .ok out)
     (decl : Geff.Validate.Decl) (other : Geff.Validate.Call → Geff.Validate.Outcome) :
     Geff.Validate.validateData { graph := true } decl
       (GeffProps.C12.graphResult true (intIds out.nodes) (intEdges out.edges) other) = .ok :=
-  (C16_graph_validation_iff d h ds dt out hc decl other).2 (fun x hx _ => hns x hx)
+  (C16_graph_validation_iff d h ds dt out hc decl other).2 (fun x hx _ => h.noSelfLink x hx)
 
 /-- `C16_lineage_validates` goes through the official `GeffProps.C14.C14_iff` (and `C14.Spec`), not
 through a copy: this is its proof, restated with the C14 names spelled out. -/
@@ -158,15 +160,15 @@ theorem C16_lineage_column_written (d : Doc) (h : WF d) (ds dt : Bool) (out : Ou
   exact ⟨p, hp, hn, track_id_cells d h ds dt out hc p hp hn⟩
 
 /-- graph and lineage validation together on the converter's output -/
-theorem C16_output_validates (d : Doc) (h : WF d) (hns : ∀ x ∈ links d, x.1.s ≠ x.1.t)
+theorem C16_output_validates (d : Doc) (h : WF d)
     (hconn : TracksConnected d) (ds dt : Bool) (out : Out) (hc : convert d ds dt = .ok out) :
     Geff.Validate.graphStage true (intIds out.nodes) (intEdges out.edges) = .ok ∧
     Geff.Lineage.validateLineages (labelled d ds dt) out.edges = true := by
   refine ⟨?_, C16_lineage_validates d h hconn ds dt out hc⟩
   rw [← GeffProps.C12.validateData_graph_only true _ _ ⟨false, false, none⟩ (fun _ => .ok)]
-  exact C16_output_passes_graph_validation d h hns ds dt out hc _ _
+  exact C16_output_passes_graph_validation d h ds dt out hc _ _
 
-/-! ## The extra hypothesis is necessary: a well-formed document with a self link -/
+/-! ## The clause `WF.noSelfLink` is necessary: a document that meets every other clause, with a self link -/
 
 /-- two spots, one track with the links 1 → 2 and 2 → 2 -/
 def selfLink : Doc :=
@@ -176,14 +178,16 @@ def selfLink : Doc :=
                  edges := [{ s := 1, t := 2, feats := [] }, { s := 2, t := 2, feats := [] }] }],
     filtered := none }
 
-/-- `selfLink` passes every executable well-formedness check, converts, and its output
-`nodes [1, 2]`, `edges [(1, 2), (2, 2)]` is rejected by graph validation ("Self edges found") -/
+/-- `selfLink` passes every executable well-formedness check except `noSelfLinkB` (so `wfB` rejects it),
+converts, and its output `nodes [1, 2]`, `edges [(1, 2), (2, 2)]` is rejected by graph validation
+("Self edges found") -/
 theorem C16_counterexample_self_link :
-    wfB selfLink = true ∧ metaOkB selfLink = true ∧ tracksConnectedB selfLink = true ∧
+    wfCoreB selfLink = true ∧ noSelfLinkB selfLink = false ∧ wfB selfLink = false ∧
+    metaOkB selfLink = true ∧ tracksConnectedB selfLink = true ∧
     ∃ out, convert selfLink false false = .ok out ∧ out.nodes = [1, 2] ∧ out.edges = [(1, 2), (2, 2)] ∧
       Geff.Validate.graphStage true (intIds out.nodes) (intEdges out.edges) =
         .valueError "Self edges found in data:" := by
-  refine ⟨by decide, by decide, by decide, ?_⟩
+  refine ⟨by decide, by decide, by decide, by decide, by decide, ?_⟩
   have hok : isOk (convert selfLink false false) = true := by decide
   cases hc : convert selfLink false false with
   | exc e => rw [hc] at hok; cases hok
@@ -202,9 +206,9 @@ theorem C16_counterexample_self_link :
 a FilteredTracks list) meets the hypotheses, for every flag combination -/
 
 example : wfB demo = true ∧ tracksConnectedB demo = true := by decide
-example : ∀ x ∈ links demo, x.1.s ≠ x.1.t := by decide
-example : WF demo ∧ TracksConnected demo ∧ ∀ x ∈ links demo, x.1.s ≠ x.1.t :=
-  ⟨wfB_sound demo (by decide), tracksConnectedB_sound demo (by decide), by decide⟩
+example : ∀ x ∈ links demo, x.1.s ≠ x.1.t := (wfB_sound demo (by decide)).noSelfLink
+example : WF demo ∧ TracksConnected demo :=
+  ⟨wfB_sound demo (by decide), tracksConnectedB_sound demo (by decide)⟩
 example : (links demo).map (fun x => (x.1.s, x.1.t)) = [(1, 2), (1, 3), (4, 5)] := by decide
 -- the stored TRACK_ID column of `demo` (all spots kept): spot 6 belongs to no track ⇒ flagged missing;
 -- `validate_data` selects the five labelled nodes and the lineage validator accepts them
